@@ -203,6 +203,23 @@ def jobs(tier, seed):
                     xs = [fam[cmb[0]], ('id', 'zz', n), fam[cmb[1]]]
                     base, rest = variants(op, xs, rnd, 5 if tier == 'quick' else 23)
                     perm_jobs.append(('perm', base, rest))
+    # cancelling pairs (x, -x under +; x, x under ^ & |) separated by operands of every kind: all orders and nestings, never sampled
+    for n in widths:
+        a, b, c = ('id', 'a', n), ('id', 'b', n), ('id', 'c', n)
+        K = ('int', 0, n)
+        xs_ = [a, ('op', '<<', (a, K)), ('cond', c, a, b)] + ([('mem', ('id', 'p', 32), n)] if n >= 8 else [])
+        ys_ = [b, K, ('op', '-', (b,)), ('op', '>>', (b, c)), ('cond', c, b, a), ('id', 'zz', n)] + ([('mem', ('id', 'q', 32), n)] if n >= 8 else [])
+        for x in (xs_ if n == 32 or tier == 'thorough' else xs_[:1]):
+            for y in ys_:
+                for op in G.ASSOC:
+                    if op == '*':
+                        continue
+                    pair = [x, ('op', '-', (x,))] if op == '+' else [x, x]
+                    base, rest = variants(op, pair + [y], rnd, 0)
+                    perm_jobs.append(('perm', base, rest))
+            if n == 32:
+                base, rest = variants('+', [x, ('op', '-', (x,)), ys_[0], ys_[1]], rnd, 12 if tier == 'quick' else 0)
+                perm_jobs.append(('perm', base, rest))
     # (i) idempotence over the C05 shapes
     sh = G.c05_shapes(tier if tier == 'quick' else 'quick', seed, widths=widths if tier == 'quick' else None)
     if tier == 'thorough':
